@@ -231,9 +231,15 @@ func decodeBytecodeV2(bc *Bytecode, r *bytes.Buffer) error {
 				return err
 			}
 
-			sz := obj.(ugo.Int)
+			sz, ok := obj.(ugo.Int)
+			if !ok {
+				return errors.New("invalid file set size type:" + obj.TypeName())
+			}
 			if sz <= 0 {
 				continue
+			}
+			if int64(sz) > int64(r.Len()) {
+				return io.ErrUnexpectedEOF
 			}
 
 			data := make([]byte, sz)
@@ -252,21 +258,33 @@ func decodeBytecodeV2(bc *Bytecode, r *bytes.Buffer) error {
 				return err
 			}
 
-			bc.Main = f.(*ugo.CompiledFunction)
+			main, ok := f.(*ugo.CompiledFunction)
+			if !ok {
+				return errors.New("invalid main function type:" + f.TypeName())
+			}
+			bc.Main = main
 		case 2:
 			obj, err := DecodeObject(r)
 			if err != nil {
 				return err
 			}
 
-			bc.Constants = obj.(ugo.Array)
+			constants, ok := obj.(ugo.Array)
+			if !ok {
+				return errors.New("invalid constants type:" + obj.TypeName())
+			}
+			bc.Constants = constants
 		case 3:
 			num, err := DecodeObject(r)
 			if err != nil {
 				return err
 			}
 
-			bc.NumModules = int(num.(ugo.Int))
+			n, ok := num.(ugo.Int)
+			if !ok {
+				return errors.New("invalid number of modules type:" + num.TypeName())
+			}
+			bc.NumModules = int(n)
 		default:
 			return errors.New("unknown field:" + strconv.Itoa(int(field)))
 		}
@@ -297,7 +315,7 @@ func DecodeObject(r io.Reader) (ugo.Object, error) {
 			return nil, err
 		}
 
-		buf := make([]byte, 2+size)
+		buf := make([]byte, 2+int(size))
 		buf[0] = btype
 		buf[1] = size
 		if size > 0 {
@@ -352,15 +370,12 @@ func DecodeObject(r io.Reader) (ugo.Object, error) {
 		}
 
 		n := 1 + len(readBytes)
-		buf := make([]byte, n+int(value))
+		buf, err := readSized(r, n, value)
+		if err != nil {
+			return nil, err
+		}
 		buf[0] = btype
 		copy(buf[1:], readBytes)
-
-		if value > 0 {
-			if _, err = io.ReadFull(r, buf[n:]); err != nil {
-				return nil, err
-			}
-		}
 
 		switch btype {
 		case binCompiledFunctionV1:
@@ -665,6 +680,9 @@ func (o *String) UnmarshalBinary(data []byte) error {
 		return nil
 	}
 
+	if size > int64(len(data)) {
+		return errors.New("invalid ugo.String data size")
+	}
 	ub := 1 + offset + int(size)
 	if len(data) < ub {
 		return errors.New("invalid ugo.String data size")
@@ -707,6 +725,9 @@ func (o *Bytes) UnmarshalBinary(data []byte) error {
 		return nil
 	}
 
+	if size > int64(len(data)) {
+		return errors.New("invalid ugo.Bytes data size")
+	}
 	ub := 1 + offset + int(size)
 	if len(data) < ub {
 		return errors.New("invalid ugo.Bytes data size")
@@ -765,6 +786,9 @@ func (o *Array) UnmarshalBinary(data []byte) error {
 	if size <= 0 {
 		return nil
 	}
+	if size > int64(len(data)) {
+		return errors.New("invalid ugo.Array data size")
+	}
 	ub := 1 + offset + int(size)
 	if len(data) < ub {
 		return errors.New("invalid ugo.Array data size")
@@ -777,6 +801,11 @@ func (o *Array) UnmarshalBinary(data []byte) error {
 	length, err := vi.read()
 	if err != nil {
 		return err
+	}
+
+	// every element takes at least one byte
+	if length < 0 || length > int64(rd.Len()) {
+		return errors.New("invalid ugo.Array length")
 	}
 
 	arr := make([]ugo.Object, 0, int(length))
@@ -840,7 +869,7 @@ func (o *Map) UnmarshalBinary(data []byte) error {
 		return nil
 	}
 
-	if len(data) < 1+offset+int(size) {
+	if size > int64(len(data)) || len(data) < 1+offset+int(size) {
 		return errors.New("invalid ugo.Map data size")
 	}
 
@@ -849,6 +878,10 @@ func (o *Map) UnmarshalBinary(data []byte) error {
 	var vi varintConv
 	vi.reader = rd
 	m := *o
+	if m == nil {
+		m = Map{}
+		*o = m
+	}
 
 	for rd.Len() > 0 {
 		value, err := vi.read()
@@ -989,6 +1022,10 @@ func (o *CompiledFunction) UnmarshalBinary(data []byte) error {
 		return nil
 	}
 
+	if size > int64(len(data)) || len(data) < 1+offset+int(size) {
+		return errors.New("invalid ugo.CompiledFunction data size")
+	}
+
 	rd := bytes.NewReader(data[1+offset : 1+offset+int(size)])
 	var vi varintConv
 	vi.reader = rd
@@ -1016,7 +1053,11 @@ func (o *CompiledFunction) UnmarshalBinary(data []byte) error {
 			if err != nil {
 				return err
 			}
-			o.Instructions = obj.(ugo.Bytes)
+			insts, ok := obj.(ugo.Bytes)
+			if !ok {
+				return errors.New("invalid instructions type:" + obj.TypeName())
+			}
+			o.Instructions = insts
 		case 3:
 			o.Variadic = true
 		case 4:
@@ -1025,6 +1066,11 @@ func (o *CompiledFunction) UnmarshalBinary(data []byte) error {
 			length, err := vi.read()
 			if err != nil {
 				return err
+			}
+
+			// every key value pair takes at least two bytes
+			if length < 0 || length > int64(rd.Len()) {
+				return errors.New("invalid source map length")
 			}
 
 			sz := int(length / 2)
@@ -1195,6 +1241,11 @@ func (sf *SourceFile) UnmarshalBinary(data []byte) error {
 		return err
 	}
 
+	// every line offset takes at least one byte
+	if v < 0 || v > int64(rd.Len()) {
+		return errors.New("invalid number of lines")
+	}
+
 	length := int(v)
 
 	lines := make([]int, length)
@@ -1257,6 +1308,11 @@ func (sfs *SourceFileSet) UnmarshalBinary(data []byte) error {
 		return err
 	}
 
+	// every file takes at least one byte
+	if v < 0 || v > int64(rd.Len()) {
+		return errors.New("invalid number of files")
+	}
+
 	length := int(v)
 	files := make([]*parser.SourceFile, length)
 
@@ -1264,6 +1320,9 @@ func (sfs *SourceFileSet) UnmarshalBinary(data []byte) error {
 		v, err = vi.read()
 		if err != nil {
 			return err
+		}
+		if v < 0 || v > int64(rd.Len()) {
+			return io.ErrUnexpectedEOF
 		}
 		data := make([]byte, v)
 		if _, err = io.ReadFull(rd, data); err != nil {
@@ -1282,6 +1341,32 @@ func (sfs *SourceFileSet) UnmarshalBinary(data []byte) error {
 
 	sfs.Files = files
 	return nil
+}
+
+// readSized returns a buffer of prefix+size bytes whose last size bytes are
+// read from r. The size comes from the input: never allocate more than the
+// reader can deliver.
+func readSized(r io.Reader, prefix int, size int64) ([]byte, error) {
+	if lr, ok := r.(interface{ Len() int }); ok {
+		if size > int64(lr.Len()) {
+			return nil, io.ErrUnexpectedEOF
+		}
+		buf := make([]byte, prefix+int(size))
+		if _, err := io.ReadFull(r, buf[prefix:]); err != nil {
+			return nil, err
+		}
+		return buf, nil
+	}
+
+	var b bytes.Buffer
+	b.Write(make([]byte, prefix))
+	if _, err := io.CopyN(&b, r, size); err != nil {
+		if err == io.EOF {
+			err = io.ErrUnexpectedEOF
+		}
+		return nil, err
+	}
+	return b.Bytes(), nil
 }
 
 func readByteFrom(r io.Reader) (byte, error) {
